@@ -346,4 +346,80 @@ theorem faithful_under_any_write_faults (n : Nat) (script : List WriteResult) (d
       exact ih _ _ (add_any_script c acc d h)
   exact this ds _ [] (by simp [writtenRows, Streaming.new, Better.samples])
 
+open Ftdc.Props.C07 in
+theorem sd_flush_any_script (c : StreamingDynamic) (rows : List Row)
+    (h : writtenRows c.s.out ++ c.s.inner.samples = rows) :
+    writtenRows (c.flush).1.s.out ++ (c.flush).1.s.inner.samples = rows := by
+  have := flush_any_script c.s rows h
+  unfold StreamingDynamic.flush
+  cases hf : c.s.flush with
+  | mk s' ok =>
+    rw [hf] at this
+    by_cases hcond : ok = true ∧ c.s.info.2 ≠ 0
+    · simp only [if_pos hcond]; exact this
+    · simp only [if_neg hcond]; exact this
+
+open Ftdc.Props.C07 in
+theorem sd_add_any_script (c : StreamingDynamic) (acc : List BDoc) (d : BDoc)
+    (h : writtenRows c.s.out ++ c.s.inner.samples = acc.map fun x => (extractDoc x).map (·.1)) :
+    writtenRows (addLogSD (c, acc) d).1.s.out ++ (addLogSD (c, acc) d).1.s.inner.samples =
+      (addLogSD (c, acc) d).2.map fun x => (extractDoc x).map (·.1) := by
+  have key : ∀ (c1 : StreamingDynamic),
+      writtenRows c1.s.out ++ c1.s.inner.samples = acc.map (fun x => (extractDoc x).map (·.1)) →
+      writtenRows (c1.s.add d).1.out ++ (c1.s.add d).1.inner.samples =
+        (if (c1.s.add d).2 = .ok then acc ++ [d] else acc).map fun x => (extractDoc x).map (·.1) := by
+    intro c1 h1
+    have := add_any_script c1.s acc d h1
+    simpa [addLog] using this
+  unfold addLogSD StreamingDynamic.add
+  cases hh : c.hash with
+  | none =>
+    dsimp only
+    by_cases hc : c.s.count > 0
+    · rw [if_pos hc]
+      have hf := sd_flush_any_script c _ h
+      by_cases hok : (c.flush).2 = true
+      · simp only [hok, Bool.not_true, Bool.false_eq_true, if_false]
+        exact key _ hf
+      · have hok' : (c.flush).2 = false := by simpa using hok
+        simp [hok', hf]
+    · rw [if_neg hc]
+      simp only [Bool.not_true, Bool.false_eq_true, if_false]
+      exact key c h
+  | some hsh =>
+    dsimp only
+    by_cases hc : hsh ≠ schemaKey d
+    · rw [if_pos hc]
+      have hf := sd_flush_any_script c _ h
+      by_cases hok : (c.flush).2 = true
+      · simp only [hok, Bool.not_true, Bool.false_eq_true, if_false]
+        exact key _ hf
+      · have hok' : (c.flush).2 = false := by simpa using hok
+        simp [hok', hf]
+    · rw [if_neg hc]
+      simp only [Bool.not_true, Bool.false_eq_true, if_false]
+      exact key c h
+
+open Ftdc.Props.C07 in
+/-- the same for the schema-aware streaming collector (and so for the writer collector built on it):
+schema-change flushes that fail lose nothing either -/
+theorem dynamic_faithful_under_any_write_faults (n : Nat) (script : List WriteResult) (ds : List BDoc) :
+    let c0 : StreamingDynamic := { s := { Streaming.new n with out := { script := script } } }
+    let r := ds.foldl addLogSD (c0, [])
+    writtenRows r.1.s.out ++ r.1.s.inner.samples = r.2.map fun x => (extractDoc x).map (·.1) := by
+  have : ∀ (ds : List BDoc) (c : StreamingDynamic) (acc : List BDoc),
+      writtenRows c.s.out ++ c.s.inner.samples = acc.map (fun x => (extractDoc x).map (·.1)) →
+      writtenRows (ds.foldl addLogSD (c, acc)).1.s.out ++ (ds.foldl addLogSD (c, acc)).1.s.inner.samples =
+        (ds.foldl addLogSD (c, acc)).2.map fun x => (extractDoc x).map (·.1) := by
+    intro ds
+    induction ds with
+    | nil => intro c acc h; exact h
+    | cons d ds ih =>
+      intro c acc h
+      simp only [List.foldl_cons]
+      have e : addLogSD (c, acc) d = ((addLogSD (c, acc) d).1, (addLogSD (c, acc) d).2) := rfl
+      rw [e]
+      exact ih _ _ (sd_add_any_script c acc d h)
+  exact this ds _ [] (by simp [writtenRows, Streaming.new, Better.samples])
+
 end Ftdc.Props.C09
